@@ -51,6 +51,10 @@ impl Observer<Val, i64> for TProbe {
   }
 }
 
+fn absurd(e: std::convert::Infallible) -> i64 {
+  match e {}
+}
+
 fn show(log: &Log) -> String {
   log.lock().unwrap().join(" ")
 }
@@ -198,6 +202,29 @@ macro_rules! finalize_runner {
         show(&log)
       }
 
+      /// an iterator source: it asks is_finished before every pull and completes after the loop (no markers between its items)
+      pub fn run_iter(sh: Shape, stims: &[Sexp]) -> String {
+        let log: Log = Log::default();
+        let n = stims[0].int();
+        let l2 = log.clone();
+        let cb = move || l2.lock().unwrap().push("call".to_string());
+        let p = FProbe { log: log.clone() };
+        macro_rules! src {
+          () => {
+            observable::from_iter((0..n).map(Val::Z)).on_error_map(absurd as fn(std::convert::Infallible) -> i64)
+          };
+        }
+        let handle: $boxty = match sh {
+          Shape::Plain => $boxsub::new(src!().$fin(cb).actual_subscribe(p)),
+          Shape::TakeBefore(k) => $boxsub::new(src!().take(k).$fin(cb).actual_subscribe(p)),
+          Shape::TakeAfter(k) => $boxsub::new(src!().$fin(cb).take(k).actual_subscribe(p)),
+        };
+        if stims.iter().any(|s| matches!(s, Sexp::Atom(a) if a == "u" || a == "ud")) {
+          handle.unsubscribe();
+        }
+        show(&log)
+      }
+
       pub fn run_cold(sh: Shape, stims: &[Sexp]) -> String {
         let log: Log = Log::default();
         let evs: Vec<Ev> = stims
@@ -258,6 +285,8 @@ pub fn run_finalize(body: &[Sexp]) -> String {
     ("threads", "dead") => threads::run_hot(sh, stims, true),
     ("threads", "never") => threads::run_never(sh, stims),
     ("local", "cold") => local::run_cold(sh, stims),
+    ("local", "iter") => local::run_iter(sh, stims),
+    ("threads", "iter") => threads::run_iter(sh, stims),
     ("threads", "hot") => threads::run_hot(sh, stims, false),
     ("threads", "cold") => threads::run_cold(sh, stims),
     (f, s) => panic!("bad finalize form {f} {s}"),
